@@ -2,7 +2,7 @@
    Delivery and symmetry are theorems about the wrapper model; strictness under the default
    resolution is C07's derivation in signature mode (Properties/C07.v, C09_strict below);
    name / docstring / coroutine-ness are a regenerated source fact plus direct observation. *)
-From Coq Require Import ZArith List Bool.
+From Coq Require Import ZArith List Bool Arith.
 From KV Require Import Base.PyVal Base.Prims Model.Validator Model.Sem Model.Signature Proofs.SignatureP.
 Import ListNotations.
 
@@ -76,6 +76,32 @@ Theorem C09_strict :
 Proof. exact derive_strict_all. Qed.
 Print Assumptions C09_strict.
 
+(* ... and conversely (Proofs/DeriveC.v): an argument that is a value of the annotated type is accepted
+   and handed on unchanged, every other well-formed argument is rejected with an Invalid - the default
+   resolution accepts exactly the values of the annotated type.  [cplain] is [okstrict] with Literal
+   members restricted to str / int / bool / bytes / None; [hproper] adds to [inst_ok] and [proper] that
+   set members and dict keys are hashable; the annotation's height bounds the fuel. *)
+From KV Require Import Proofs.DeriveC.
+Theorem C09_strict_accepts_exactly_the_type :
+  forall (E : env) a, cplain E a = true ->
+    forall v, derive true a = Ok v ->
+    forall n x, (aheight a < n)%nat -> hproper E x = true ->
+      (has_type a x = true <-> run E Sync n v x = OValid x) /\
+      (has_type a x = false <-> exists i, run E Sync n v x = OInvalid i).
+Proof.
+  intros E a Hc v Hd n x Hn Hp. destruct (derive_complete E a Hc v Hd n x Hn Hp) as [N C].
+  assert (S : forall w, run E Sync n v x = OValid w -> has_type a x = true).
+  { intros w Hr. apply (derive_strict_all E a (cplain_okstrict E a Hc) v Hd n x w Hr (hproper_inst E x Hp)). }
+  split; split.
+  - exact C.
+  - intros Hr. exact (S x Hr).
+  - intros Hf. destruct (run E Sync n v x) as [w|i| | |] eqn:Er; try discriminate.
+    + rewrite (S w eq_refl) in Hf. discriminate.
+    + exists i. reflexivity.
+  - intros [i Hi]. destruct (has_type a x) eqn:Ht; [|reflexivity]. rewrite (C eq_refl) in Hi. discriminate.
+Qed.
+Print Assumptions C09_strict_accepts_exactly_the_type.
+
 (* non-vacuity: a dataclass holding a list of NamedTuples; the look-alike dict is rejected *)
 Section StrictExample.
   Import ListNotations. Open Scope Z_scope.
@@ -92,4 +118,7 @@ Section StrictExample.
               (exists i, run E1 Sync 8 v (VDict [(sa, VList []); (sb, VInt 2)]) = OInvalid i) /\
               (exists i, run E1 Sync 8 v (VObj 0%nat [(sa, VList [VObj 1%nat [(sa, VStr [49])]]); (sb, VInt 2)]) = OInvalid i).
   Proof. repeat split; try reflexivity. eexists. repeat split; try (vm_compute; reflexivity); eexists; vm_compute; reflexivity. Qed.
+  Example C09_strict_decides_nonvacuous :
+    cplain E1 DC = true /\ hproper E1 inst = true /\ has_type DC inst = true /\ (aheight DC < 8)%nat.
+  Proof. split; [vm_compute; reflexivity|]. split; [vm_compute; reflexivity|]. split; [vm_compute; reflexivity|]. apply Nat.ltb_lt. vm_compute. reflexivity. Qed.
 End StrictExample.
